@@ -663,24 +663,24 @@ func buildEvidence(prop, tier string, seed uint64, total *workerResult, agg *sta
 		samples = append(samples, "no run long enough to sample")
 	}
 	cov := map[string]interface{}{
-		"evaluations":         total.Evals,
-		"run_files":           total.Runs,
-		"distinct_nontrivial": distinct,
-		"rule":                info.Rule,
-		"samples":             samples,
-		"exhaustive":          false,
-		"runs_per_hour":       int(runsPerHour),
-		"operations_executed": total.Ops,
-		"logical_steps_store_calls": total.StoreCalls,
-		"simulated_time":            "not applicable: the system under test reads no clock on any decision path; progress is counted in scheduled store calls",
-		"distinct_model_states":     states,
-		"runs_by_backend":           total.ByBackend,
-		"runs_by_engine":            total.ByEngine,
-		"real_vs_stub":              "mem-* = simulated disk (stub storage engine); bbolt / badger-* = the shipped adapters over the real engines; clover's own code is real in every run",
-		"faults_and_crashes_fired":  agg.Fired,
-		"oracle_clauses_evaluated":  agg.Checks,
-		"probes":                    agg.Probes,
-		"ops_by_kind":               agg.Ops,
+		"evaluations":                 total.Evals,
+		"run_files":                   total.Runs,
+		"distinct_nontrivial":         distinct,
+		"rule":                        info.Rule,
+		"samples":                     samples,
+		"exhaustive":                  false,
+		"runs_per_hour":               int(runsPerHour),
+		"operations_executed":         total.Ops,
+		"logical_steps_store_calls":   total.StoreCalls,
+		"simulated_time":              "not applicable: the system under test reads no clock on any decision path; progress is counted in scheduled store calls",
+		"distinct_model_states":       states,
+		"runs_by_backend":             total.ByBackend,
+		"runs_by_engine":              total.ByEngine,
+		"real_vs_stub":                "mem-* = simulated disk (stub storage engine); bbolt / badger-* = the shipped adapters over the real engines; clover's own code is real in every run",
+		"faults_and_crashes_fired":    agg.Fired,
+		"oracle_clauses_evaluated":    agg.Checks,
+		"probes":                      agg.Probes,
+		"ops_by_kind":                 agg.Ops,
 		"collateral_other_properties": total.Collateral,
 		"known_findings_hit":          kf,
 		"required_probes_missing":     missing,
